@@ -318,8 +318,12 @@ class Scenario:
         hk = plan["heap"]
         g, z, poison = hk["twins"][self.twin]
         heap.reset()
+        # guard runs: twin 0 fences the end of every array, twin 1 the start
+        guard = ("end", "start")[self.twin] if hk.get("guard") else "none"
         heap.configure(garbage=g, redzone=z, rz=hk["rz"], realloc=hk["realloc"], zero=hk["zero"],
-                       poison=poison)
+                       poison=poison, guard=guard)
+        if guard != "none":
+            self.probe("guard_page_twin_runs")
         ins = self.make_inputs()
 
         # ---- evaluate
@@ -688,7 +692,9 @@ def shrink_candidates(plan):
     # knobs toward benign
     if plan["capacity"] != 1 << 20:
         p = cp(); p["capacity"] = 1 << 20; yield p
-    if plan["heap"]["realloc"] != "size_class":
+    if plan["heap"].get("guard"):
+        p = cp(); p["heap"]["guard"] = False; yield p
+    elif plan["heap"]["realloc"] != "size_class":
         p = cp(); p["heap"]["realloc"] = "size_class"; yield p
     if plan["heap"]["zero"] != "unique":
         p = cp(); p["heap"]["zero"] = "unique"; yield p
